@@ -31,18 +31,13 @@ pub fn vrange_find_not(n: usize, visited: &Vec<bool>) -> (r: Option<usize>)
         },
 { (0..n).find(|node| !visited[*node]) }
 
-// R-ext (A5): the final index -> name translation `partitions.iter().map(|p| p.iter().map(|node| name(node)).collect()).collect()`
+// R-ext (A5): `v.iter().map(f).collect()` targets a local declaration ASSUMED to apply f to every element in order; the (nested)
+// closures of the final index -> name translation stay in place and are verified
 #[verifier::external_body]
-pub fn vmap_partitions_to_names<T, A>(graph: &Graph<T, A>, partitions: &Vec<Vec<usize>>) -> (r: Vec<Vec<T>>)
-    where T: Hash + Eq + Clone + Ord + Display + Send + Sync, A: Clone + Send + Sync,
-    requires
-        graph.wf_nodes(),
-        forall|p: int, j: int| 0 <= p < partitions@.len() && 0 <= j < partitions@[p]@.len() ==> #[trigger] partitions@[p]@[j] < graph.n(),
-    ensures
-        r@.len() == partitions@.len(),
-        forall|p: int| 0 <= p < r@.len() ==> (#[trigger] r@[p])@.len() == partitions@[p]@.len(),
-        forall|p: int, j: int| #![trigger r@[p]@[j]] #![trigger partitions@[p]@[j]] 0 <= p < r@.len() && 0 <= j < r@[p]@.len() ==> r@[p]@[j] == graph.name_of(partitions@[p]@[j]),
-{ unimplemented!() }
+pub fn vref_map_collect<X, O, F: FnMut(&X) -> O>(v: &Vec<X>, f: F) -> (r: Vec<O>)
+    requires forall|i: int| 0 <= i < v@.len() ==> call_requires(f, (&#[trigger] v@[i],)),
+    ensures r@.len() == v@.len(), forall|i: int| 0 <= i < r@.len() ==> call_ensures(f, (&v@[i],), #[trigger] r@[i]),
+{ v.iter().map(f).collect() }
 
 
 // ---- specification of the partitioning state ----
@@ -232,12 +227,35 @@ vrange_find_not(graph.number_of_nodes(), &visited)
         .map(|partition| {
             partition
                 .iter()
-                .map(|node| graph.get_node_by_index(node).unwrap().name.clone())
+                .map(|node|
+//@ with
+    let part_fn = |partition: &Vec<usize>| -> (o: Vec<T>)
+            requires graph.wf_nodes(), forall|j: int| 0 <= j < partition@.len() ==> #[trigger] partition@[j] < graph.n(),
+            ensures o@.len() == partition@.len(), forall|j: int| 0 <= j < o@.len() ==> #[trigger] o@[j] == graph.name_of(partition@[j]),
+        {
+            vref_map_collect(partition, |node: &usize| -> (o: T)
+                requires graph.wf_nodes(), *node < graph.n(),
+                ensures o == graph.name_of(*node),
+            {
+//@ rewrite
+)
                 .collect()
         })
         .collect()
 //@ with
-    vmap_partitions_to_names(graph, &partitions)
+ })
+        };
+    let ghost pv = partitions@;
+    let out = vref_map_collect(&partitions, part_fn);
+    proof {
+        assert forall|p: int| 0 <= p < out@.len() implies (#[trigger] out@[p])@.len() == pv[p]@.len()
+            && forall|j: int| 0 <= j < out@[p]@.len() ==> #[trigger] out@[p]@[j] == graph.name_of(pv[p]@[j]) by {
+            assert(call_ensures(part_fn, (&pv[p],), out@[p]));
+        }
+        assert(out@.len() == pv.len());
+        assert(forall|p: int, j: int| #![trigger out@[p]@[j]] #![trigger pv[p]@[j]] 0 <= p < out@.len() && 0 <= j < out@[p]@.len() ==> out@[p]@[j] == graph.name_of(pv[p]@[j]));
+    }
+    out
 //@ spec
     requires
         graph.wf_nodes(),
